@@ -42,7 +42,7 @@ Theorem c02_inflight_insert_offset_visible_K1 :
 Proof. exists coll0, [SInsert 0 [] false]. vm_compute. split; [|split]; [set_solver|set_solver|done]. Qed.
 
 Example c02_example :
-  let col := mkcol true (λ a b, b) (V8 0) ∅ in
+  let col := mkcol true (λ a b, b) (V8 0) id ∅ in
   let s := create_column coll0 1 col false in
   let body := [SInsert 0 [WPut 1 (V8 5)] false; SInsert 1 [] true] in
   Quiescent s ∧ Forall fresh_res (snd (run_txn s body false)) ∧ dump (fst (run_txn s body false)) = [].
